@@ -8,37 +8,72 @@ LOVH = {0: 0, 1: 1, 2: 0}
 
 
 def rx_cases(tier):
+    """the shape (LLID and payload size of every PDU) is the case split; L2CAP length field, CID, all bytes stay symbolic"""
     cs = []
-    def add(cfg, k, payload):
-        cs.append({'CFG': cfg, 'K': k, 'RXMAX': payload + 2 + LOVH[cfg], '_unwind': 10})
-    if tier == 'quick':
-        add(0, 3, 27); add(1, 3, 27); add(2, 3, 27)
-        add(0, 2, 251)
-    else:
-        add(0, 4, 27); add(1, 4, 27); add(2, 4, 27)
-        add(0, 3, 251); add(1, 3, 251)
+    def add(cfg, shape, payload=27):
+        c = {'CFG': cfg, 'K': len(shape), 'RXMAX': payload + 2 + LOVH[cfg], 'T0': -1, 'T1': -1, 'T2': -1, 'T3': -1, 'Z0': -1, 'Z1': -1, 'Z2': -1, 'Z3': -1, '_unwind': 8}
+        for i, (t, z) in enumerate(shape):
+            c['T%d' % i] = t; c['Z%d' % i] = z
+        cs.append(c)
+    START, CONT, CTRL = 2, 1, 3
+    sizes = (0, 3, 4, 5, 27) if tier == 'quick' else (0, 1, 3, 4, 5, 13, 26, 27)
+    cfgs = (0,) if tier == 'quick' else (0, 1, 2)
+    for cfg in cfgs:
+        # start, continuation, continuation with every combination of the listed payload sizes
+        for a in sizes:
+            for b in sizes:
+                add(cfg, [(START, a), (CONT, b), (CONT, 27)])
+        # interleaved control PDU, repeated start, orphaned continuation
+        for b in sizes:
+            add(cfg, [(START, 27), (CTRL, b), (CONT, 27)])
+            add(cfg, [(START, 27), (START, b), (CONT, 27)])
+            add(cfg, [(CONT, b), (START, 27), (CONT, 27)])
+    if tier != 'quick':
+        for cfg in (0, 1):
+            add(cfg, [(START, 251), (CONT, 251)], payload=251)
+            add(cfg, [(CONT, 251), (START, 27)], payload=251)
     return cs
 
 
 def tx_cases(tier):
     cs = []
-    for cfg in (0, 1, 2):
+    ns = (0, 1, 22, 23, 24, 50, 65) if tier == 'quick' else range(0, 66)
+    for cfg in ((0,) if tier == 'quick' else (0, 1, 2)):
         for payload in (27, 100, 251):
-            cs.append({'CFG': cfg, 'TXMAX': payload + 2 + LOVH[cfg], 'ROUNDS': 3 if tier == 'quick' else 4})
+            for n in ns:
+                if n > {0: 65, 1: 65, 2: 40}[cfg]: continue
+                for av in (0xffff, 0xfffe, 0xfff5, 0xffe0):
+                    cs.append({'CFG': cfg, 'TXMAX': payload + 2 + LOVH[cfg], 'ROUNDS': 3, 'N': n, 'AV': av, '_unwind': 6})
     return cs
 
 
+RX_BOUNDS = ('MTU 65 (default and nRF encrypted layout), MTU 40; from construction K = 3 PDUs (thorough: also 2 PDUs of 251 byte payload); the shape (LLID and payload size of every PDU) is enumerated: '
+             'start/continuation/continuation with payload sizes from {0,3,4,5,27} (thorough {0,1,3,4,5,13,26,27}) in every combination, and start-control-continuation, start-start-continuation, '
+             'continuation-start-continuation with the middle/first PDU of every listed size; per case the L2CAP length field (any 16 bit value), CID and all PDU bytes are symbolic; '
+             'quick: default layout MTU 65 only')
+TX_BOUNDS = ('one SDU from construction; payload size N enumerated (quick: 0,1,22,23,24,50,65; thorough: every 0..MTU), max_tx_size 27/100/251 byte payload, 4 availability patterns of the radio\'s transmit buffers '
+             '(always; first request refused; alternating; five refusals first), 3 further calls of next_ll_l2cap_received()/allocate_ll_transmit_buffer() (symbolic choice); all SDU bytes symbolic')
+
 PROPERTY = Property(
     'C19',
-    [Harness('c19_rx', SDU, 'harness/c19_rx.c', rx_cases, unwind=10, unwindset=['in_bytes.0:66', 'memset.0:260'], timeout=900, diff_iters=400, diff_cases=4,
+    [Harness('c19_rx', SDU, 'harness/c19_rx.c', rx_cases, unwind=8, unwindset=['in_bytes.0:66', 'harness.1:200', 'take_snapshot.0:200', 'check_memory.0:200'], timeout=900, diff_iters=300, diff_cases=6,
              flags=['-DVF_MAX_INPUTS=512'],
-             description='TODO', bounds='TODO'),
-     Harness('c19_tx', SDU, 'harness/c19_tx.c', tx_cases, unwind=18, unwindset=['in_bytes.0:76', 'memset.0:260'], timeout=900, diff_iters=400, diff_cases=4,
+             description='incoming: K PDUs of enumerated shape with symbolic content into the real next_ll_l2cap_received()/free_ll_l2cap_received(); deliveries compared with a reassembly written from the statement; all bytes of the object outside the reassembly buffer are canaries',
+             bounds=RX_BOUNDS),
+     Harness('c19_tx', SDU, 'harness/c19_tx.c', tx_cases, unwind=6, unwindset=['in_bytes.0:76', 'harness.0:17', 'harness.1:9', 'harness.2:17', 'harness.3:17', 'harness.4:74'], timeout=900, diff_iters=300, diff_cases=6,
              flags=['-DVF_MAX_INPUTS=512'],
-             description='TODO', bounds='TODO')],
-    functions=[],
-    bounds='TODO',
-    assumptions=[],
-    explanation='TODO',
-    outside=[],
+             description='outgoing: one SDU with symbolic bytes through the real commit_l2cap_transmit_buffer()/try_send_pdus() into a stub radio that checks type, size and content of every fragment',
+             bounds=TX_BOUNDS)],
+    functions=['ll_l2cap_sdu_buffer::next_ll_l2cap_received', 'll_l2cap_sdu_buffer::add_to_receive_buffer', 'll_l2cap_sdu_buffer::free_ll_l2cap_received',
+               'll_l2cap_sdu_buffer::allocate_l2cap_transmit_buffer', 'll_l2cap_sdu_buffer::commit_l2cap_transmit_buffer', 'll_l2cap_sdu_buffer::try_send_pdus',
+               'll_l2cap_sdu_buffer::allocate_ll_transmit_buffer', 'll_l2cap_sdu_buffer::commit_ll_transmit_buffer'],
+    bounds=RX_BOUNDS + ' | ' + TX_BOUNDS,
+    assumptions=['the radio delivers PDUs with LLID 1..3 whose length field equals their payload size, at most RXMAX bytes (LLID 0 is reserved and not generated)',
+                 'the link layer calls free_ll_l2cap_received() after every delivered PDU/SDU before the next PDU arrives',
+                 'the L2CAP layer writes the L2CAP length field equal to the payload size it allocated',
+                 'a new start fragment ends a reassembly in progress (Core spec: a start fragment begins a new L2CAP PDU); overlong fragments may be cut at the announced length or the SDU dropped (permissive)'],
+    explanation='incoming PDUs are exact objects of the radio, their content symbolic; the oracle reassembles independently (start opens, continuations append, announced length closes) and compares size, origin and one universally quantified byte of every delivery, and all bytes of the ll_l2cap_sdu_buffer object outside receive_buffer_ and its two counters before/after every call (intra-object overflow detection); outgoing fragments are checked in the stub radio at commit time',
+    outside=['payload sizes of the incoming PDUs outside the enumerated sets; more than 3 PDUs; LLID 0',
+             'the specialisation for the default MTU 23 (pure forwarding)',
+             'max_tx_size changing between the fragments of one SDU'],
 )
